@@ -97,6 +97,8 @@ impl Region {
             let abs_offset = region_start + offset;
             let slice = unsafe { std::slice::from_raw_parts_mut(ptr.add(abs_offset), value_len) };
             write_fn(&value, slice);
+            #[cfg(anydb_verif)]
+            crate::verif::io(|| crate::verif::IoEvent::WData { off: abs_offset, bytes: slice.to_vec() });
             dirty_start = dirty_start.min(offset);
             dirty_end = dirty_end.max(end_offset);
         }
@@ -372,6 +374,8 @@ impl Region {
         // but before data sync, metadata could reference unwritten data.
         if data_flushed || meta_flushed {
             db.file().sync_data()?;
+            #[cfg(anydb_verif)]
+            crate::verif::io(|| crate::verif::IoEvent::Sync { meta: false });
             regions.sync_data()?;
         }
 
